@@ -357,6 +357,29 @@ Proof.
       intros k Hk. assert (k = 0) by lia. subst k. split; [assumption | simpl; lia].
 Qed.
 
+Lemma ravelr_zeros end_ : ravelr end_ (repeat 0 (length end_)) = 0.
+Proof.
+  induction end_ as [|e r IH]; [reflexivity|].
+  change (0 + e * ravelr r (repeat 0 (length r)) = 0). rewrite IH. lia.
+Qed.
+
+Lemma assemble_vector_order_l : forall end_,
+  Forall (fun e => 0 < e) end_ ->
+  let zeros := repeat 0 (length end_) in
+  let vis := visit_r (prodl end_) zeros zeros end_ in
+  length vis = prodl end_ /\
+  forall k, k < prodl end_ -> Forall2 lt (nth k vis []) end_ /\ ravelr end_ (nth k vis []) = k.
+Proof.
+  intros end_ Hpos zeros vis.
+  assert (F : Forall2 lt zeros end_).
+  { unfold zeros. clear vis zeros. induction Hpos; simpl; constructor; assumption. }
+  assert (Z : ravelr end_ zeros = 0) by apply ravelr_zeros.
+  assert (E : ravelr end_ zeros + prodl end_ = prodl end_) by (rewrite Z; reflexivity).
+  destruct (visit_spec end_ (prodl end_) zeros F E) as [L N].
+  split; [exact L|]. intros k Hk. destruct (N k Hk) as [A B]. split; [exact A|].
+  unfold vis, zeros in *. rewrite B, Z. reflexivity.
+Qed.
+
 (* ------------------------------------------------------------------------- *)
 (* nqp                                                                           *)
 (* ------------------------------------------------------------------------- *)
@@ -378,6 +401,55 @@ Proof.
     + exists q. split; [right; exact Hq|]. simpl in *. lia.
     + exists p. split; [left; reflexivity|]. simpl in *. lia.
 Qed.
+
+Lemma sym_index_bijection_l : forall n,
+  (forall i j, sym_index_to_seq n i j = sym_index_to_seq n j i) /\
+  (forall i j, i <= j -> j < n -> sym_index_to_seq n i j < n * (n + 1) / 2) /\
+  (forall i j i' j', i <= j -> j < n -> i' <= j' -> j' < n ->
+     sym_index_to_seq n i j = sym_index_to_seq n i' j' -> i = i' /\ j = j') /\
+  (forall s, s < n * (n + 1) / 2 -> exists i j, i <= j /\ j < n /\ sym_index_to_seq n i j = s).
+Proof.
+  intros n. split; [exact (sym_symmetric n)|]. split; [exact (sym_range_l n)|].
+  split; [exact (sym_inj_l n) | exact (sym_surj_l n)].
+Qed.
+
+Lemma row_major_bijection_l : forall shape,
+  (forall I, Forall2 lt I shape -> ravel_multi_index I shape < prodl shape) /\
+  (forall I, Forall2 lt I shape -> from_seq shape (ravel_multi_index I shape) = I) /\
+  (forall I I', Forall2 lt I shape -> Forall2 lt I' shape ->
+     ravel_multi_index I shape = ravel_multi_index I' shape -> I = I') /\
+  (forall s, shape <> [] -> s < prodl shape ->
+     Forall2 lt (from_seq shape s) shape /\ ravel_multi_index (from_seq shape s) shape = s).
+Proof.
+  intros shape. split; [intros; now apply ravel_lt|]. split; [intros; now apply from_seq_ravel|].
+  split; [intros; now apply (ravel_inj I I' shape) | intros; now apply ravel_from_seq].
+Qed.
+
+Lemma reader_writer_agree_l : forall vars k k' I I',
+  k < length vars -> k' < length vars ->
+  wf_var (nth k vars dvar) -> wf_var (nth k' vars dvar) ->
+  valid_index (nth k vars dvar) I -> valid_index (nth k' vars dvar) I' ->
+  var_ref_slot vars k I = var_ref_slot vars k' I' ->
+  k = k' /\ storage_index (nth k vars dvar) I = storage_index (nth k' vars dvar) I'.
+Proof.
+  intros vars k k' I I' Hk Hk' W W' V V' E.
+  unfold var_ref_slot in E. fold dvar in E. fold (slot_ofs vars k) in E. fold (slot_ofs vars k') in E.
+  apply (layout_disjoint_l vars k k'); try assumption; now apply storage_index_lt.
+Qed.
+
+Lemma pderiv_lookup_spec_l : forall dim nd D k ng i g_sta ik,
+  length D = dim -> k < dim ->
+  let '(ax, stride, ofs) := nth k (gen_pderiv dim nd D) (0, 0, 0) in
+  ax = k /\ ofs = nth (dim - 1 - k) D 0 /\
+  flat3 ng (nd + 1) i g_sta 0 + stride * ik + ofs = flat3 ng (nd + 1) i (g_sta + ik) (nth (dim - 1 - k) D 0).
+Proof.
+  intros dim nd D k ng i g_sta ik HL Hk. rewrite gen_pderiv_spec by assumption.
+  split; [reflexivity|]. split; [reflexivity|]. symmetry. apply flat3_lookup.
+Qed.
+
+Lemma nqp_l : forall ps,
+  Forall (fun p => p + 1 <= nqp ps) ps /\ (ps <> [] -> exists p, In p ps /\ nqp ps = p + 1).
+Proof. intros ps. split; [apply nqp_ge | apply nqp_attained]. Qed.
 
 (* ------------------------------------------------------------------------- *)
 (* the entry loop                                                                *)
